@@ -124,6 +124,8 @@ package disk
 //@   ensures[C05,C18] toolarge: size > c.maxSize ==> (result != nil && istype(result, "*cache.Error") && as(result, "*cache.Error").Code == 400)
 //@   ensures[C03] full: (size > 0 && size <= c.maxSize && size + old(c.reservedSize) > c.maxSize) ==> (result != nil && istype(result, "*cache.Error") && as(result, "*cache.Error").Code == 507)
 //@   ensures zero: size == 0 ==> result == nil
+//@   ensures[C01,C17] errclass: result != nil ==> istype(result, "*cache.Error")
+//@   ensures negative: size < 0 ==> result != nil
 //@   loop 0 invariant index: lruIndex(c)
 //@   loop 0 invariant sizes: lruSizes(c)
 //@   loop 0 invariant frame: c.reservedSize == old(c.reservedSize) && c.maxSize == old(c.maxSize) && c.maxSizeHardLimit == old(c.maxSizeHardLimit)
@@ -142,6 +144,8 @@ package disk
 //@   modifies c.currentSize, c.uncompressedSize, c.ll.seq, mapof(c.cache), #list.Element.owner, #list.Element.Value, evq, qobs, c.totalDiskSizePeak,
 //@            #lruItem.size, #lruItem.sizeOnDisk, #lruItem.legacy, #lruItem.random
 //@   ensures[C03,C07] inv: lruInv(c)
+//@   gmodifies adopted
+//@   gensures (ok ==> adopted == old(adopted) + 1) && (!ok ==> adopted == old(adopted))
 //@   ensures[C03,C05] rejected: !ok ==> (c.currentSize == old(c.currentSize) && c.uncompressedSize == old(c.uncompressedSize) && c.ll.seq == old(c.ll.seq) && evq == old(evq))
 //@   ensures[C05] oversize: r4k(value.sizeOnDisk) > c.maxSize ==> !ok
 //@   ensures frame: c.reservedSize == old(c.reservedSize) && c.maxSize == old(c.maxSize)
